@@ -660,6 +660,11 @@ class CallMixin:
         t = self.eng.ptype(n.args[1].value)
         return SV(t, v.z)
 
+    def bi_replace(self, n, st):
+        """spec: s.replace(a, b) with the same term structure as the code-level translation."""
+        s_, a, b = [self.ev(x, st) for x in n.args]
+        return SV(T.Str, self.str_replace(s_.z, a, b, st))
+
     def bi_fresh(self, n, st):
         """spec: the reference was allocated after function entry."""
         v = self.ev(n.args[0], st)
@@ -768,6 +773,8 @@ class CallMixin:
             c, x, y = z.children()
             return z3.If(c, self.str_replace(x, a, b, st), self.str_replace(y, a, b, st))
         u = self.call_spec_or_uf('str_replace', [SV(T.Str, z), a, b], st).z
+        if getattr(self.eng.prop, 'charset_mode', False):
+            return u
         if z3.is_string_value(a.z) and len(a.z.as_string()) == 1:
             return z3.If(z3.Length(z) == 0, z3.StringVal(''),
                          z3.If(z3.Length(z) == 1, z3.If(z == a.z, b.z, z), u))
